@@ -50,6 +50,9 @@ def run(chk):
     try:
         progcheck.run_plans(chk, rd, plans(chk.tier), OBS, opts={"no_compute": True, "last_only": False}, selftest=_corrupt,
                             accept_verdict=accept)
+        from ..modelcheck import add_models
+
+        add_models(chk, ['MapBlocksInfo:exact'])
         chk.cov["exhaustive"] = True
         chk.cov["rule"] = ("every behaviour of ArrayProgram.tla with a MapBlocks action (function taking block_info, block_id or both): alone over "
                            "every source shape/grid; above every (lean) operation and above sliding-window reductions over every chunking of 1-D "
